@@ -5,7 +5,8 @@
 (* reset  {len, w16:[...]}   the bit vector, bit i = bit (i mod 16) of w16[i div 16]; *)
 (*                           expanded ONCE into vec (bits, prefix sums, positions)    *)
 (* rank   {which, api, all, at, r}       all = TRUE: r answers every p in 0..len      *)
-(* select {which, api, all, at, r}       one call per k; -1 = Err/None                *)
+(* select {which, api, all, at, r, why}  one call per k; -1 = Err/None; why = class of *)
+(*                                       the refusal messages                         *)
 (* select_batch {which, api, at, ok, r}  one call for all k of at                     *)
 (* get {api, r}  counts {len, ones, zeros}  popcounts {api, r}                        *)
 (* wrank {api, w, r}  wselect {which, api, w, r}   questions on one 64-bit word       *)
@@ -26,7 +27,7 @@ Step(e) ==
     \/ e.op = "rank"   /\ ~e.all /\ RankAt(e.which, e.at, e.r)
     \/ e.op = "select" /\ e.all  /\ SelectAll(e.which, e.r)
     \/ e.op = "select" /\ ~e.all /\ SelectAt(e.which, e.at, e.r)
-    \/ e.op = "select" /\ SelectNotOffered(e.which, e.r)
+    \/ e.op = "select" /\ SelectNotOffered(e.which, e.r, e.why)
     \/ e.op = "select_batch" /\ SelectBatch(e.which, e.at, e.ok, e.r)
     \/ e.op = "get"    /\ GetAll(e.r)
     \/ e.op = "counts" /\ Counts(e.len, e.ones, e.zeros)
